@@ -10,7 +10,9 @@ rvars == <<vers, last, phase>>
 NoVal == 0 - 1
 RInit == vers = <<>> /\ last = <<>> /\ phase = "before"
 Ext(f, k, v) == [x \in DOMAIN f \cup {k} |-> IF x = k THEN v ELSE f[x]]
-\* the origin sent version v of key (len bytes) and the client received it completely
+\* the origin has sent version v of key completely (len bytes)
+Produced(v, key, len) == vers' = Ext(vers, v, [key |-> key, len |-> len]) /\ UNCHANGED <<last, phase>>
+\* ... and a client received it completely
 Stored(v, key, len) == phase = "before" /\ vers' = Ext(vers, v, [key |-> key, len |-> len]) /\ last' = Ext(last, key, v) /\ UNCHANGED phase
 Purged(key) == phase = "before" /\ last' = Ext(last, key, NoVal) /\ UNCHANGED <<vers, phase>>
 Stop(kind) == phase = "before" /\ phase' = kind /\ UNCHANGED <<vers, last>>     \* "clean" or "killed"
